@@ -101,10 +101,70 @@ func c16Pollute() {
 	install(tape.New(&tape.Script{}))
 }
 
+var c16Tuned bool
+
 func c16Run(c *core.Ctx) {
 	c16Pass(c, "")
 	c16Pollute()
 	c16Pass(c, " (after other recipes were used)")
+	if c.Shard == 0 {
+		c16Budget(c)
+	}
+	// the presets and defaults have no requirements, so no setting of the
+	// retry budget may change them
+	for _, tune := range []struct {
+		t int
+		r float64
+	}{{200, 0}, {1, 1e-9}, {1000, 1}} {
+		oldT, oldR := spg.MaxTrials, spg.MaxFailRate
+		spg.MaxTrials, spg.MaxFailRate = tune.t, tune.r
+		c16Tuned = true
+		c16Pass(c, fmt.Sprintf(" (with MaxTrials=%d MaxFailRate=%g)", tune.t, tune.r))
+		c16Tuned = false
+		spg.MaxTrials, spg.MaxFailRate = oldT, oldR
+	}
+}
+
+// c16Budget: the documented default retry budget, observed: on a stream where
+// every attempt misses the requirement Generate gives up after exactly 200
+// attempts; when only the first attempt misses, the second one is used.
+func c16Budget(c *core.Ctx) {
+	for _, L := range []int{1, 2, 3, 50, 198, 199, 200, 250, 1000} {
+		r := spg.CharRecipe{Length: L, AllowChars: "ab", RequireSets: []string{"b"}}
+		rp := map[string]interface{}{"item": "retry budget", "length": L}
+		if L <= 3 {
+			// (longer recipes almost surely succeed, so giving up on them
+			// needs no particular number of attempts: only an upper bound)
+			t := policyTape(func(bound uint32, i int) uint32 { return 0 })
+			install(t)
+			out := runGen(r.Generate)
+			c.Count("executions", 1)
+			c.Count("items_checked", 1)
+			switch {
+			case out.Aborted:
+				c.Violation(fmt.Sprintf("retry budget L=%d", L), "on a stream where every attempt misses the requirement Generate never gives up (documented: 200 attempts)", rp)
+			case out.HasPw || out.Panic != "" || out.Err == "":
+				c.Violation(fmt.Sprintf("retry budget L=%d", L), fmt.Sprintf("every attempt misses the requirement, result %q err %q panic %q", out.Str, out.Err, out.Panic), rp)
+			case t.Words != 200*L:
+				c.Violation(fmt.Sprintf("retry budget L=%d", L), fmt.Sprintf("Generate gave up after drawing %d characters = %.2f attempts; the documented default is 200 attempts", t.Words, float64(t.Words)/float64(L)), rp)
+			}
+		}
+		// first attempt all 'a' (misses), afterwards all 'b'
+		t := policyTape(func(bound uint32, i int) uint32 {
+			if i < L {
+				return 0
+			}
+			return 1
+		})
+		install(t)
+		out := runGen(r.Generate)
+		c.Count("executions", 1)
+		c.Count("items_checked", 1)
+		if !out.HasPw || out.Str != strings.Repeat("b", L) {
+			c.Violation(fmt.Sprintf("retry second attempt L=%d", L), fmt.Sprintf("the first attempt misses the requirement and the second satisfies it, but Generate returned %q err %q panic %q aborted=%v after %d draws", trunc(out.Str), out.Err, out.Panic, out.Aborted, t.Words), rp)
+		}
+	}
+	install(tape.New(&tape.Script{}))
 }
 
 func c16Pass(c *core.Ctx, when string) {
@@ -195,7 +255,7 @@ func c16Pass(c *core.Ctx, when string) {
 			fail("CapScheme names", "capitalisation scheme constants differ from the documented strings")
 		}
 		item()
-		if spg.MaxTrials != 200 || spg.MaxFailRate != 1e-9 {
+		if !c16Tuned && (spg.MaxTrials != 200 || spg.MaxFailRate != 1e-9) {
 			fail("retry budget", fmt.Sprintf("MaxTrials=%d MaxFailRate=%g, documented 200 and 1e-9", spg.MaxTrials, spg.MaxFailRate))
 		}
 		item()
